@@ -29,7 +29,7 @@ def is_task_invoke(t):
     if not (c.endswith("FnOnce::call_once") or c.endswith("FnMut::call_mut") or c.endswith("Fn::call")):
         return False
     tys = " ".join(t.get("argtys", []))
-    return "dyn core::ops::function::FnOnce<(&mut " in tys or "dyn core::ops::function::Fn" in tys
+    return "<(&mut A, &mut context::Context<A>)>" in tys and "dyn core::ops::function::Fn" in tys
 
 
 def local_wrapper(t):
@@ -182,7 +182,7 @@ class Lifecycle(Spec):
             if inflight:
                 return self.err("L7", "dequeue while a handler future is still in flight (%s)" % inflight) or st
             if pending:
-                return self.err("L8" if pending == "Task" else "L10", "next dequeue although the dequeued %s was not dispatched" % pending) or st
+                return self.err("L8" if pending in ("Task", "Item") else "L10", "next dequeue although the dequeued %s was not dispatched" % pending) or st
             if draining:
                 return self.err("L9", "dequeue after Stop / closed mailbox was taken out") or st
             return st
@@ -195,7 +195,7 @@ class Lifecycle(Spec):
         if ev.startswith("sw:Option::") and src in ("snext", "stream"):
             if ev.endswith("None"):
                 return S(draining=True)
-            return st
+            return S(pending="Item")
         if ev == "sw:Sel::Complete":
             return S(draining=True)
         if ev.startswith("sw:Payload::"):
@@ -232,7 +232,9 @@ class Lifecycle(Spec):
                 return self.err("L9", "stream item handled after Stop / shutdown began") or st
             if inflight:
                 return self.err("L7", "second handler future while one is in flight") or st
-            return S(inflight="shandle")
+            if self.stream and pending != "Item":
+                return self.err("L8", "stream item handler invoked without a freshly selected item (twice?)") or st
+            return S(inflight="shandle", pending=None)
         if ev == "done:shandle":
             return S(inflight=None)
         if ev == "call:refresh":
